@@ -93,7 +93,7 @@ def shard(ctx, acc):
         n[0] += 1
         wd = os.path.join(ctx.workdir, f'run{n[0]}')
         r = e2e.run_ddsmt(wd, case['text'], case['spec'], case['opts'], mode='blackbox',
-                          spec_cc=case.get('spec_cc'), wall_limit=90)
+                          spec_cc=case.get('spec_cc'), wall_limit=60)
         nt, classes = check_run(case, r, acc, wd)
         acc.add_extra('tests_logged', len(r.log))
         acc.case(case, nontrivial=nt, classes=classes,
